@@ -117,22 +117,23 @@ def choose_overload(name, candidates, engine, receiver, context, args, kwargs):
         kwargs[key] = arg_evaluator(key, value)
 
     delegate = None
-    winner_mapping = None
     for level in candidates2:
+        matches = []
         for c, mapping in level:
             try:
                 d = c.get_delegate(receiver, engine, context, args, kwargs)
             except exceptions.ArgumentException:
                 pass
             else:
-                if delegate is not None:
-                    if _is_specialization_of(winner_mapping, mapping):
-                        continue
-                    elif not _is_specialization_of(mapping, winner_mapping):
-                        raise_ambiguous()
-                delegate = d
-                winner_mapping = mapping
-        if delegate is not None:
+                matches.append((d, mapping))
+        if matches:
+            winners = [
+                d for d, m in matches
+                if all(m is m2 or _is_specialization_of(m, m2)
+                       for _, m2 in matches)]
+            if len(winners) != 1:
+                raise_ambiguous()
+            delegate = winners[0]
             break
 
     if delegate is None:
